@@ -67,7 +67,10 @@ func c17(r *core.Run) {
 	r.Rule("C17/R2", "list and record move together: each assignment to UnifiedFile.Proofs of a stored file is followed on all paths by a FileProof Set/Delete and a file save; file removal deletes a FileProof per listed key")
 	r.Rule("C17/R4", "records decoded on transaction/block paths go into a variable local to the invocation (never a captured variable with repeated fields): a reused decode target accumulates the prover lists of earlier files, and saving it stores provers that belong to other files")
 	r.Rule("C17/R3", "uniqueness and bound: appender calls on transaction paths are behind containsProver(...)=false; the append is behind Cmp(len(Proofs) < MaxProofs); FileProof records built for a file take Merkle/Owner/Start from the file")
+	r.Rule("C17/R5", "the two indexes name a file by the same fields: every storage key builder is an injective formatter of its parameters (each parameter once, as it is or hex/decimal formatted), so two files that are distinct in one index never share a slot in the other")
 	funcs := consensusFuncs(p)
+	// ---- R5 key builders of both indexes are injective in the file's identifying fields
+	r.Floor("C17/R5", keyBuildersFaithful(r, "C17/R5", "storage"), 8, "storage key builders")
 	// ---- R4 a file that may be saved back is decoded into a fresh variable
 	staleDecodeTargets(r, "C17/R4", funcs)
 	// ---- R1
